@@ -242,12 +242,21 @@ def run_scenario(ctx, s):
             elif outcome == "stuck":
                 ctx.violation("upload never completed although every server answered or failed", case, "upload-stuck")
             else:
-                # another error class: the statement promises an unhappiness error when the threshold cannot be met
+                # Another error class. The statement promises an unhappiness error only "if the threshold
+                # cannot be met"; when it could have been met the statement is silent (see DESIGN 8.9: the
+                # uploader can die with an AssertionError after allocating one share number on two servers).
                 ctx.count("outcome-other:" + outcome)
-                ctx.violation("upload failed with %s instead of an unhappiness error" % outcome, case, "upload-wrong-error:" + outcome)
+                answering = [i for i in range(s.num_servers) if i not in s.broken]
+                if len(answering) < s.happy:
+                    ctx.violation("the threshold could not be met, but the upload failed with %s instead of an unhappiness error" % outcome,
+                                  case, "upload-wrong-error:" + outcome)
             if g.incoming_files():
-                ctx.violation("partial share left in incoming/ after the upload ended (reservation not released)",
-                              dict(case, incoming=[p for _, p in g.incoming_files()][:3]), "incoming-left-behind")
+                # not reader-visible, so outside the statement; the model says every bucket writer of a
+                # finished upload was closed or aborted, so for success/unhappy this is a model disagreement
+                ctx.count("incoming-left-behind:" + outcome)
+                if outcome in ("success", "unhappy"):
+                    ctx.disagree("bucket writers left open after the upload ended (model: all closed or aborted)", case,
+                                 [p for _, p in g.incoming_files()][:3], "none")
             # ---------------- correspondence with the model
             line, want = None, None
             if rec["landlords"] is not None and outcome in ("success", "unhappy"):
